@@ -153,7 +153,7 @@ type API struct {
 	mu sync.Mutex
 	B  *B
 	// Tamper, when set, may alter a membership answer before it is returned.
-	TamperMembership func(*balloon.MembershipProof) *balloon.MembershipProof
+	TamperMembership  func(*balloon.MembershipProof) *balloon.MembershipProof
 	TamperIncremental func(*balloon.IncrementalProof) *balloon.IncrementalProof
 }
 
@@ -209,5 +209,7 @@ func (a *API) QueryConsistency(s, e uint64) (*balloon.IncrementalProof, error) {
 func (a *API) ClusterInfo() *consensus.ClusterInfo {
 	return &consensus.ClusterInfo{LeaderId: "n0", Nodes: map[string]*consensus.NodeInfo{"n0": a.Info()}}
 }
-func (a *API) Info() *consensus.NodeInfo { return &consensus.NodeInfo{NodeId: "n0", HttpAddr: "127.0.0.1:0"} }
-func (a *API) IsLeader() bool             { return true }
+func (a *API) Info() *consensus.NodeInfo {
+	return &consensus.NodeInfo{NodeId: "n0", HttpAddr: "127.0.0.1:0"}
+}
+func (a *API) IsLeader() bool { return true }
